@@ -1,6 +1,7 @@
 import LP.Props.C01
 import LP.Props.C01Deriv
 import LP.Props.C01Canon
+import LP.Props.C01EvalRat
 #print axioms LP.Mono.toFinsupp_norm
 #print axioms LP.MPoly.den_normalize
 #print axioms LP.MPoly.C01_add
@@ -24,3 +25,4 @@ import LP.Props.C01Canon
 #print axioms LP.MPoly.C01_canonical_unique
 #print axioms LP.C01_canonical_unique_Z
 #print axioms LP.C01_canonical_unique_ZMod
+#print axioms LP.MPoly.C01_evalRat
